@@ -36,7 +36,8 @@ def main():
                 return 2
         res = {}
         for pid in props:
-            env = dict(os.environ, VERIF_REPO=repo, VERIF_NO_CLEAN="1")
+            env = dict(os.environ, VERIF_REPO=repo, VERIF_NO_CLEAN="1", VERIF_EVIDENCE_DIR=os.path.join(tmp, "evidence"),
+                       VERIF_REPLAY_DIR=os.path.join(V, "replays", "seeded"))
             q = subprocess.run([os.path.join(V, "check"), pid, "--tier", tier], cwd=V, env=env, stdout=subprocess.PIPE,
                                stderr=subprocess.PIPE, text=True)
             viol = [l for l in q.stdout.split("\n") if l.startswith("VIOLATION")]
